@@ -120,6 +120,18 @@ pub fn replay(path: &str) -> i32 {
     let h = Hist::build(&out.log);
     let mut g = Group::default();
     let viols = (prop.check)(&case, &out, &h, &mut g);
+    if std::env::var_os("NXV_DUMP_LOG").is_some() {
+        let n = out.log.len();
+        for (i, e) in out.log.iter().enumerate().skip(n.saturating_sub(60)) {
+            println!("log[{}] {:?}", i, e);
+        }
+        let d = &out.sched.decisions;
+        let mut per: BTreeMap<u16, u64> = BTreeMap::new();
+        for t in d.iter().skip(d.len().saturating_sub(20_000)) {
+            *per.entry(*t).or_insert(0) += 1;
+        }
+        println!("scheduling points: {} (last 20000 by thread: {:?}), failure: {:?}", d.len(), per, out.failure);
+    }
     if out.sched.replay_diverged {
         println!("note: the recorded schedule could not be followed exactly (a recorded thread was not runnable)");
     }
